@@ -325,6 +325,32 @@ pub fn run(ctx: &mut Ctx) {
         }
     }
 
+    // several flags on one directive: the LAST of `_` / `0` decides the padding character, `-` switches
+    // padding off wherever it stands -- every ordered pair and a few triples
+    {
+        let fl = ["-", "_", "0", "^", "#"];
+        let mut combos: Vec<String> = Vec::new();
+        for a in fl {
+            for b in fl {
+                combos.push(format!("{}{}", a, b));
+            }
+        }
+        for t in ["0_0", "_0_", "-0_", "0_-", "0-_", "^0_", "0^_", "#_0", "00_", "__0"] {
+            combos.push(t.to_string());
+        }
+        for ns in [5_000_000u32, 123_456_789] {
+            if let Some(o) = civil(2022, 1, 3, 7, 6, 5, ns, 6 * 3600) {
+                for c in &combos {
+                    for d in ["d", "H", "M", "e", "k", "j", "y", "Y", "b", "a", "p", "T", "z", "s", "N"] {
+                        for w in ["", "5", "10"] {
+                            g.fmt_case("dir:flag-order", o, &format!("%{}{}{}", c, w, d));
+                        }
+                    }
+                    g.fmt_case("dir:flag-order", o, &format!("%{}H:%{}M", c, c));
+                }
+            }
+        }
+    }
     // every width 1..=12 of the two fraction directives x fractions with leading zeros
     for ns in [0u32, 1, 99, 5_000_000, 50_000_000, 99_999_999, 100_000_000, 123_456_789, 9_000_000, 999_999_999, 10] {
         if let Some(o) = civil(2022, 1, 3, 7, 56, 37, ns, 6 * 3600) {
